@@ -1,16 +1,23 @@
 package props
 
 // C18 — program results do not depend on semantics-neutral interpreter options.
-// Every program of the quick corpora of the twin-execution checks (C05–C09 …) is evaluated under EVERY
-// combination of {OptDebugger, OptCollectDeclarations, OptCollectStatements, OptTrapPanic,
-// OptPanicStackTrace, OptKeepUntyped} x {generics extension on, off} (128 configurations), through Eval
-// and through EvalReader (the path on which the trap/stack-trace options act). Oracle: configuration 0.
+// Two corpora are evaluated under EVERY combination of {OptDebugger, OptCollectDeclarations, OptCollectStatements,
+// OptTrapPanic, OptPanicStackTrace, OptKeepUntyped} x {generics extension on, off} (128 configurations):
+//  1. the C18-own corpus (c18_corpus.go, runner in c18_own.go): the lexical/syntactic layer (bytes inside literals,
+//     literal spellings, extension keywords and other special names used as identifiers, source layout: separators,
+//     line ends, comments, //line directives, BOM, very long lines) and the REPL-only input forms (':'-prefixed
+//     force-eval inputs, commands, package clause, macros) as bounded sequences of inputs;
+//  2. every program of the quick corpora of the twin-execution checks (C05–C08 ...).
+// Entry points: Eval, EvalReader (the path on which the trap/stack-trace options act) and, for the sequences of REPL
+// inputs, ParseEvalPrint input by input. Oracle: configuration 0 of the same generics mode; the configuration-0
+// results of the two modes (separate worker processes) are compared in the parent.
 
 import (
 	"encoding/json"
 	"fmt"
 	"hash/fnv"
 	"os"
+	"sort"
 	"strings"
 
 	"github.com/cosmos72/gomacro/base"
@@ -31,6 +38,9 @@ func init() {
 			return []string{"VERIF_GENERICS="}
 		},
 		Prepare: func(c *core.Ctx) error {
+			if err := c18OwnSanity(c18OwnCorpus(c.Thorough())); err != nil {
+				return err
+			}
 			for _, spec := range diffSpecs {
 				if spec.Runner != nil {
 					continue
@@ -104,8 +114,8 @@ func c18RunProg(ir *twin.Interp, p *oracle.Prog, path string) string {
 	msg := ""
 	if err != nil {
 		msg = err.Error()
-	} else if out := strings.TrimSpace(ir.Out.String()); out != "" {
-		msg = strings.SplitN(out, "\n", 2)[0]
+	} else {
+		msg = c18FirstLine(ir.Out.String())
 	}
 	if msg != "" {
 		cl := h.ErrClass(msg, false)
@@ -117,11 +127,15 @@ func c18RunProg(ir *twin.Interp, p *oracle.Prog, path string) string {
 	return trace
 }
 
-func c18Run(c *core.Ctx) {
-	mode := os.Getenv("VERIF_GENERICS")
-	if mode == "" {
-		mode = "v2"
+func c18Mode() string {
+	if mode := os.Getenv("VERIF_GENERICS"); mode != "" {
+		return mode
 	}
+	return "v2"
+}
+
+func c18Run(c *core.Ctx) {
+	mode := c18Mode()
 	group, ngroups := c.Shard/2, c.NShards/2
 	if c.NShards < 2 {
 		group, ngroups = 0, 1
@@ -130,17 +144,29 @@ func c18Run(c *core.Ctx) {
 	if c.NShards%2 == 1 && c.Shard == c.NShards-1 {
 		return // odd worker out
 	}
-	c.Rule("every program (quick tier: every stride-th program, stride reported as corpus_stride) of the quick corpora of the registered twin-execution checks, evaluated under all 64 combinations of {Debugger, CollectDeclarations, CollectStatements, TrapPanic, PanicStackTrace, KeepUntyped} in each generics mode {v2 CTI, none} (worker processes, the mode is process-global) = 128 configurations; " +
+	c.Rule("(1) own corpus (lexical/syntactic layer and REPL-only inputs; families lit-byte, lit-lines, lit-form, ident, layout, repl: see own_corpus_families), every program under all 64 option combinations in each generics mode, through Eval (or ParseEvalPrint input by input for the REPL sequences) and through EvalReader; oracle = configuration 0 of the same mode and path (a stream that panics is compared within the same TrapPanic setting on the EvalReader path, because an untrapped panic ends the stream by design), and the configuration-0 results of the two modes must be equal; " +
+		"(2) every program (quick tier: every stride-th program, stride reported as corpus_stride) of the quick corpora of the registered twin-execution checks, evaluated under all 64 combinations of {Debugger, CollectDeclarations, CollectStatements, TrapPanic, PanicStackTrace, KeepUntyped} in each generics mode {v2 CTI, none} (worker processes, the mode is process-global) = 128 configurations; " +
 		"paths: Eval for all configurations, EvalReader for all configurations in the thorough tier and for the 16 Trap/StackTrace/Debugger/KeepUntyped combinations in the quick tier; oracle = configuration 0 of the same generics mode, and the two modes' configuration-0 results must be equal (cross-process, by hash); " +
 		"plus a fixed list of untyped constant expressions whose KeepUntyped result must convert exactly to the typed baseline; non-trivial = distinct (program, configuration) pairs whose baseline trace has at least two events")
+	// the own corpus first: it is small and must never fall behind the deadline
+	hkey := fmt.Sprintf("baseline_hashes_%s_%d", mode, group)
+	own := &c18OwnRunner{c: c, mode: mode}
+	if os.Getenv("VERIF_C18_PART") != "borrowed" { // development aid: run one part only
+		var done bool
+		if own, done = c18RunOwnCorpus(c, mode, group, ngroups); !done {
+			return
+		}
+	}
+	if os.Getenv("VERIF_C18_PART") == "own" {
+		return
+	}
 	cc := c18Ctx(c)
 	nconf := 1 << uint(len(c18Opts))
-	// one shared interpreter per (configuration, path): programs have unique names
-	evalIr := make([]*twin.Interp, nconf)
-	readIr := make([]*twin.Interp, nconf)
+	// one shared interpreter per configuration (the ones of the own corpus): every program declares all it uses
 	hashes := map[string]uint64{}
 	n := 0
-	// quick tier: a fixed stride through every corpus (every stride-th program) keeps 128 configurations affordable;
+	// quick tier: a fixed stride through every corpus (every stride-th program, about 1500 programs) keeps 128 configurations affordable
+	// next to the own corpus;
 	// the thorough tier takes every program
 	total := 0
 	corpora := map[string][]oracle.Prog{}
@@ -156,8 +182,8 @@ func c18Run(c *core.Ctx) {
 		total += len(valid)
 	}
 	stride := 1
-	if c.Quick() && total > 2500 {
-		stride = (total + 2499) / 2500
+	if c.Quick() && total > 1500 {
+		stride = (total + 1499) / 1500
 	}
 	c.Set("corpus_programs_total", total)
 	c.Set("corpus_stride", stride)
@@ -174,16 +200,13 @@ func c18Run(c *core.Ctx) {
 				continue
 			}
 			if c.Expired() {
-				c.Set("baseline_hashes_"+mode, hashes)
+				c.Set(hkey, hashes)
 				return
 			}
 			p := &valid[i]
 			var base0, baseR string
 			for k := 0; k < nconf; k++ {
-				if evalIr[k] == nil {
-					evalIr[k] = c18NewInterp(k)
-				}
-				out := c18RunProg(evalIr[k], p, "Eval")
+				out := c18RunProg(own.interp(k), p, "Eval")
 				c.Eval(1)
 				if k == 0 {
 					base0 = out
@@ -206,10 +229,7 @@ func c18Run(c *core.Ctx) {
 				if !viaReader {
 					continue
 				}
-				if readIr[k] == nil {
-					readIr[k] = c18NewInterp(k)
-				}
-				outR := c18RunProg(readIr[k], p, "EvalReader")
+				outR := c18RunProg(own.interp(k), p, "EvalReader")
 				c.Eval(1)
 				// the REPL path reports an escaped panic as text (printed by the trap, or as the returned error): the text of a
 				// user panic value is formatted differently by the two reporters, so user values are compared by presence only
@@ -225,7 +245,7 @@ func c18Run(c *core.Ctx) {
 			}
 		}
 	}
-	c.Set("baseline_hashes_"+mode, hashes)
+	c.Set(hkey, hashes)
 	if group == 0 {
 		c18Untyped(c, mode)
 	}
@@ -306,18 +326,26 @@ func c18Untyped(c *core.Ctx, mode string) {
 
 // c18Finish compares the configuration-0 results of the two generics modes (collected by hash from the workers).
 func c18Finish(c *core.Ctx) {
-	// worker partials are merged into c's extra map: both hash maps are there
-	a, b := c.Extra("baseline_hashes_v2"), c.Extra("baseline_hashes_none")
-	c.Set("baseline_hashes_v2", nil)
-	c.Set("baseline_hashes_none", nil)
-	am, _ := a.(map[string]interface{})
-	bm, _ := b.(map[string]interface{})
+	// worker partials are merged into c's extra map (one key per mode and worker group: same-named keys would overwrite each other)
+	c18FinishOwn(c)
 	n := 0
-	for id, hv := range am {
-		if hb, ok := bm[id]; ok {
-			n++
-			if fmt.Sprint(hv) != fmt.Sprint(hb) {
-				c.Violation("C18|generics-mode", fmt.Sprintf("program %s: configuration-0 result differs between generics v2 and generics off", id), map[string]string{"program": id})
+	for g := 0; g < 256; g++ {
+		ka, kb := fmt.Sprintf("baseline_hashes_v2_%d", g), fmt.Sprintf("baseline_hashes_none_%d", g)
+		am, _ := c.Extra(ka).(map[string]interface{})
+		bm, _ := c.Extra(kb).(map[string]interface{})
+		c.Set(ka, nil)
+		c.Set(kb, nil)
+		ids := make([]string, 0, len(am))
+		for id := range am {
+			ids = append(ids, id)
+		}
+		sort.Strings(ids)
+		for _, id := range ids {
+			if hb, ok := bm[id]; ok {
+				n++
+				if fmt.Sprint(am[id]) != fmt.Sprint(hb) {
+					c.Violation("C18|generics-mode", fmt.Sprintf("program %s: configuration-0 result differs between generics v2 and generics off", id), map[string]string{"program": id})
+				}
 			}
 		}
 	}
@@ -325,6 +353,15 @@ func c18Finish(c *core.Ctx) {
 }
 
 func c18Replay(c *core.Ctx, raw json.RawMessage) {
+	var probe map[string]json.RawMessage
+	if json.Unmarshal(raw, &probe) == nil && probe["program"] != nil {
+		var oc c18OwnCase
+		if err := json.Unmarshal(raw, &oc); err != nil {
+			panic(err)
+		}
+		c18ReplayOwn(c, &oc)
+		return
+	}
 	var cas c18Case
 	if err := json.Unmarshal(raw, &cas); err != nil {
 		panic(err)
